@@ -8,6 +8,8 @@ import PysphVerif.Lemmas.NnpsZOrder
 import PysphVerif.Lemmas.NnpsZOrderSym
 import PysphVerif.Lemmas.NnpsStrat
 import PysphVerif.Lemmas.NnpsSfc
+import PysphVerif.Lemmas.NnpsBounds
+import PysphVerif.Lemmas.NnpsAlias
 import Mathlib.Data.Rat.Floor
 /-!
 # C01 — every neighbour-search algorithm returns exactly the true neighbour set
@@ -20,7 +22,10 @@ cache and the pruning test of the octree query, and about
 `Model/NnpsStore.lean`, which transcribes the per-class storage (flattened
 cell index, BoxSort's `std::map`, DictBoxSort's dict, the chained hash table of
 `spatial_hash.h`, CellIndexing's packed sorted keys, the sub-cells / mask /
-per-box cut of `ExtendedSpatialHashNNPS`, the Morton key of `z_order.h`); the
+per-box cut of `ExtendedSpatialHashNNPS`, the Morton key of `z_order.h`), about
+`Model/NnpsBounds.lean` (`NNPS._compute_bounds` with its padding, `_get_number_of_cells`) and
+`Model/NnpsAlias.lean` (who owns the memory a query writes to: output arrays as views of the
+cache's buffers, `c_reset` vs `length = 0`); the
 model is tied to the 12 compiled classes by differential execution on
 dyadic-grid inputs (`harness/c01.py`), which also dumps the real octrees and has
 the driver check the hypotheses of `tree_query_exact` on them.
@@ -581,6 +586,159 @@ theorem cache_get_preserves (find : Nat → List Nat) (s : Cache) (d e : Nat)
 
 /-- `update()` forgets everything. -/
 theorem cache_update_resets (d : Nat) : Cache.reset.cached d = false := rfl
+
+/-! ## who owns the memory a query writes to (`Model/NnpsAlias.lean`)
+
+A cached query does not copy: it turns the caller's output array into a VIEW of the cache's
+per-thread buffer.  The statements below are about every history of calls of the query API on any
+number of NNPS objects / (dst, src) pairs (caches `c`) with any number of output arrays `a`, shared
+or not, in any mix. -/
+
+/-- **A query never writes the cache storage**: an un-cached query that detaches the output array
+first (`c_reset()`, what `get_nearest_particles_no_cache(…, prealloc=False)` and
+`get_nearest_particles` with the cache off do) leaves every cache of every object exactly as it
+was, whatever the array was a view of. -/
+theorem direct_query_never_writes_cache (find : Nat → Nat → List Nat) (s : AState) (c d a : Nat) :
+    (s.step find (AOp.direct true c d a)).1.caches = s.caches :=
+  stepDirect_caches find s true c d a (emptied_detach _)
+
+/-- … and so does the `prealloc=True` form on an array that is not a view (the caller's own,
+pre-allocated array, as the flag promises). -/
+theorem prealloc_query_never_writes_cache (find : Nat → Nat → List Nat) (s : AState) (c d a : Nat)
+    (h : (s.arrs a).view = none) :
+    (s.step find (AOp.direct false c d a)).1.caches = s.caches :=
+  stepDirect_caches find s false c d a (by rw [emptied_keep]; exact h)
+
+/-- **Every history of queries is exact**: starting from freshly updated caches, after ANY sequence
+of cached queries, un-cached queries and cache resets, on any objects / array pairs, with output
+arrays shared between them in any way, every call hands the caller exactly what
+`find_nearest_neighbors` produces for that call — provided only that `prealloc=True` is never used
+on an array that is currently a view (`safeRun`).  In particular a cached entry read again after
+any number of interleaved un-cached queries made with the same output array is unchanged. -/
+theorem query_history_exact (find : Nat → Nat → List Nat) (ops : List AOp)
+    (hs : AState.safeRun find AState.init ops = true) :
+    (AState.run find AState.init ops).2 = ops.map (AOp.expected find) :=
+  (AState.run_ok find ops AState.init (AState.inv_init find) hs).2
+
+/-- the same from any state whose caches are consistent, together with the invariant that makes
+the statement compose over updates -/
+theorem query_history_exact_from (find : Nat → Nat → List Nat) (ops : List AOp) (s : AState)
+    (h : AState.Inv find s) (hs : AState.safeRun find s ops = true) :
+    AState.Inv find (AState.run find s ops).1 ∧
+      (AState.run find s ops).2 = ops.map (AOp.expected find) :=
+  AState.run_ok find ops s h hs
+
+/-- **The detach is necessary**: with `length = 0` in place of `c_reset()` (the two branches of
+`get_nearest_particles_no_cache` merged into "just empty the array") the history
+cached(0) → un-cached(1) → cached(0) with ONE output array returns the neighbours of particle 1
+for particle 0: the un-cached query wrote into the cache's buffer.  (Kernel-checked on the model;
+this is the history class the harness runs against the compiled classes.) -/
+theorem detach_necessary :
+    let find : Nat → Nat → List Nat := fun _ d => [10 * d, 10 * d + 1]
+    let ops := [AOp.cached 0 0 0, AOp.direct false 0 1 0, AOp.cached 0 0 0]
+    AState.safeRun find AState.init ops = false ∧
+    (AState.run find AState.init ops).2 = [[0, 1], [10, 11], [10, 11]] ∧
+    ops.map (AOp.expected find) = [[0, 1], [10, 11], [0, 1]] := by
+  decide +kernel
+
+/-- non-vacuity: a safe history over two caches and two output arrays (shared array 0 goes
+cached → un-cached → cached on another cache → `prealloc` after a detach; a reset in between) -/
+example :
+    let find : Nat → Nat → List Nat := fun c d => [c, d, c + d]
+    let ops := [AOp.cached 0 2 0, AOp.direct true 1 0 0, AOp.cached 0 2 0, AOp.cached 1 1 0,
+      AOp.cached 0 1 1, AOp.direct true 0 0 0, AOp.direct false 1 3 0, AOp.reset 0 1,
+      AOp.cached 0 2 1, AOp.cached 1 1 0]
+    AState.safeRun find AState.init ops = true ∧
+    (AState.run find AState.init ops).2 =
+      [[0, 2, 2], [1, 0, 1], [0, 2, 2], [1, 1, 2], [0, 1, 1], [0, 0, 0], [1, 3, 4], [],
+       [0, 2, 2], [1, 1, 2]] := by
+  decide +kernel
+
+/-! ## the padded bounds put every particle into a valid cell (`Model/NnpsBounds.lean`) -/
+section bounds
+variable {α : Type} [Field α] [LinearOrder α] [IsStrictOrderedRing α] [FloorRing α]
+
+/-- **Every particle lands in a valid cell.**  For every list of particle arrays (empty ones
+included), every padding fraction `pad > 0` (the code: 0.01), every cell size `c > 0`: with
+`xmin / xmax` as `NNPS._compute_bounds` computes them and `ncells_per_dim` as
+`_get_number_of_cells` counts them (`max 1 ⌈(xmax − xmin)/c⌉` per axis), the cell
+`⌊(x − xmin)/c⌋` of every particle of every array passes `is_valid` of `get_valid_cell_index`.
+The reason is the padding on BOTH sides: the lower one keeps the cell index non-negative, the
+upper one keeps the particle with the largest coordinate strictly below `xmax` (see
+`upper_pad_necessary`); an axis without extent gets one cell. -/
+theorem padded_bounds_valid (big pad eps half c : α) (hpad : 0 < pad) (hhalf : 0 < half)
+    (hc : 0 < c) (arrs : List (List (Pt α))) (a : List (Pt α)) (ha : a ∈ arrs) (p : Pt α)
+    (hp : p ∈ a) :
+    isValidCell (ncells Int.ceil c (boundsOf big pad eps half c arrs))
+      (cell3 Int.floor c (boundsOf big pad eps half c arrs).origin p) = true := by
+  obtain ⟨hx, hy, hz⟩ := boundsOf_inAxis big pad eps half c hpad hhalf hc arrs a ha p hp
+  exact valid_of_inAxis c hc _ p hx hy hz
+
+/-- **LinkedListNNPS with the bounds the code computes**: the validity hypothesis of
+`nbrs_exact_LinkedListNNPS` is discharged by `padded_bounds_valid` — grid origin `xmin`, box
+`ncells_per_dim` from `_compute_bounds` / `_get_number_of_cells` over all arrays, source array any
+of them. -/
+theorem nbrs_exact_LinkedListNNPS_bounds (rs big pad eps half c : α) (hpad : 0 < pad)
+    (hhalf : 0 < half) (arrs : List (List (Pt α))) (src : List (Pt α)) (hsrcm : src ∈ arrs)
+    (q : Pt α) (hc : 0 < c) (hrs : 0 ≤ rs) (hq : 0 ≤ q.h) (hqc : rs * q.h ≤ c)
+    (hsrc : ∀ p ∈ src, 0 ≤ p.h ∧ rs * p.h ≤ c) :
+    let B := boundsOf big pad eps half c arrs
+    let nc := ncells Int.ceil c B
+    let cands := llCands nc (nc.1 * nc.2.1 * nc.2.2) src.length (cellAtOf Int.floor c B.origin src)
+      (cell3 Int.floor c B.origin q)
+    (nbrsOf rs src q cands).Perm (bruteForce rs src q) ∧ (nbrsOf rs src q cands).Nodup ∧
+      ∀ j ∈ nbrsOf rs src q cands, j < src.length :=
+  nbrs_exact_LinkedListNNPS rs c _ _ src q hc hrs hq hqc hsrc
+    (fun p hp => padded_bounds_valid big pad eps half c hpad hhalf hc arrs src hsrcm p hp)
+
+/-- … and BoxSortNNPS (same box; `ids ⊇` the flattened ids of the source array). -/
+theorem nbrs_exact_BoxSortNNPS_bounds (rs big pad eps half c : α) (hpad : 0 < pad)
+    (hhalf : 0 < half) (arrs : List (List (Pt α))) (src : List (Pt α)) (hsrcm : src ∈ arrs)
+    (ids : List Int) (q : Pt α) (hc : 0 < c) (hrs : 0 ≤ rs) (hq : 0 ≤ q.h) (hqc : rs * q.h ≤ c)
+    (hsrc : ∀ p ∈ src, 0 ≤ p.h ∧ rs * p.h ≤ c) :
+    let B := boundsOf big pad eps half c arrs
+    let nc := ncells Int.ceil c B
+    (∀ p ∈ src, flattenCell nc (cell3 Int.floor c B.origin p) ∈ ids) →
+    let cands := boxCands nc (occupied ids) src.length (cellAtOf Int.floor c B.origin src)
+      (cell3 Int.floor c B.origin q)
+    (nbrsOf rs src q cands).Perm (bruteForce rs src q) ∧ (nbrsOf rs src q cands).Nodup ∧
+      ∀ j ∈ nbrsOf rs src q cands, j < src.length := by
+  intro B nc hids
+  exact nbrs_exact_BoxSortNNPS rs c _ _ ids src q hc hrs hq hqc hsrc
+    (fun p hp => padded_bounds_valid big pad eps half c hpad hhalf hc arrs src hsrcm p hp) hids
+
+end bounds
+
+/-- **The upper padding is necessary**: with only the lower limit moved (`xmin -= lx*0.01`, no
+`xmax += lx*0.01`) a lattice whose padded extent is a whole number of cells — two particles 100
+cells apart, `(100 + 1)/1 = 101` — bins its last particle in cell 101 of 101: outside the box, never
+visited by a query.  With the code's bounds the same particle is in cell 101 of 102. -/
+theorem upper_pad_necessary :
+    let arrs : List (List (Pt Rat)) := [[⟨0, 0, 0, 1/2⟩, ⟨100, 0, 0, 1/2⟩]]
+    let big : Rat := 10 ^ 100
+    let Bl := boundsOfLowerOnly big (1/100) (1/1000000000000) (1/2) 1 arrs
+    let B := boundsOf big (1/100) (1/1000000000000) (1/2) 1 arrs
+    Bl.x = (-1, 100) ∧ ncells Rat.ceil 1 Bl = (101, 1, 1) ∧
+    cell3 Rat.floor 1 Bl.origin ⟨100, 0, 0, 1/2⟩ = (101, 0, 0) ∧
+    allValid Rat.floor Rat.ceil 1 Bl arrs = false ∧
+    B.x = (-1, 101) ∧ ncells Rat.ceil 1 B = (102, 1, 1) ∧
+    allValid Rat.floor Rat.ceil 1 B arrs = true := by
+  decide +kernel
+
+/-- non-vacuity of `padded_bounds_valid` and the degenerate branches: two arrays and an empty one
+in the plane `z = 0` (an axis without extent gets one cell); a single point (every extent below
+`eps`: half a cell on every side); no particle at all -/
+example :
+    let big : Rat := 10 ^ 100
+    let arrs : List (List (Pt Rat)) :=
+      [[⟨0, 0, 0, 1/4⟩, ⟨1, 1/2, 0, 1/4⟩], [], [⟨5/2, -1/4, 0, 1/8⟩]]
+    let B := boundsOf big (1/100) (1/1000000000000) (1/2) (1/2) arrs
+    B.x = (-1/40, 101/40) ∧ B.z = (0, 0) ∧ ncells Rat.ceil (1/2) B = (6, 2, 1) ∧
+    allValid Rat.floor Rat.ceil (1/2) B arrs = true ∧
+    (boundsOf big (1/100) (1/1000000000000) (1/2) (1/2) [[⟨3, 4, 5, 1/4⟩]]).x = (11/4, 13/4) ∧
+    (boundsOf big (1/100) (1/1000000000000) (1/2) (1/2) ([[], []] : List (List (Pt Rat)))).y =
+      (-1/4, 1/4) := by
+  decide +kernel
 
 /-! ## Tree family (Octree, CompressedOctree) -/
 section tree
